@@ -242,8 +242,10 @@ async fn onbusy(case: Value, base: &str) -> Value {
 	let helper = std::env::current_exe().unwrap().with_file_name("simchild");
 	let mut argv = vec!["watchexec".to_owned(), "--project-origin".into(), dir.to_string_lossy().into_owned(), "-n".into(), "--ignore-nothing".into()];
 	argv.extend(strs(&case["args"]));
-	argv.push("--".into());
-	argv.push(helper.to_string_lossy().into_owned());
+	if !case["no_command"].as_bool().unwrap_or(false) {
+		argv.push("--".into());
+		argv.push(helper.to_string_lossy().into_owned());
+	}
 	let args = match watchexec_cli::verif::args_from(argv).await {
 		Ok(a) => a,
 		Err(e) => return json!({"id": id, "error": format!("{e}")}),
